@@ -20,6 +20,7 @@ import (
 	"github.com/ozanh/ugo"
 	"github.com/ozanh/ugo/encoder"
 	"github.com/ozanh/ugo/parser"
+	ugostrings "github.com/ozanh/ugo/stdlib/strings"
 	"pgregory.net/rapid"
 
 	"verif/internal/ev"
@@ -57,6 +58,7 @@ func callGlobal() *ugo.Function {
 
 func moduleMap(hasMod bool, mod string) *ugo.ModuleMap {
 	mm := ugo.NewModuleMap()
+	mm.AddBuiltinModule("strings", ugostrings.Module)
 	if hasMod {
 		mm.AddSourceModule(modName, []byte(mod))
 	}
@@ -551,6 +553,13 @@ func handMade() []*scen {
 		{Fail: "hand:callback", Depth: 2, Callback: true, Forms: []string{"stmt", "callback", "x"},
 			Main: "global CALL\nf1 := func(a) {\n  throw \"x\"\n}\nf0 := func(a) {\n  x := 1\n  y := CALL(f1, a)\n  return 1\n}\n\nf0(1)\n",
 			Exp:  []expFrame{{mainName, 11, 11, false}, {mainName, 7, 7, true}, {mainName, 3, 3, false}}},
+		{Fail: "hand:stdlib-callback", Depth: 2, Callback: true, Forms: []string{"stmt", "callback-stdlib", "x"},
+			Main: "strings := import(\"strings\")\nf0 := func(s) {\n  x := 1\n  return strings.IndexFunc(s, func(c) {\n    throw \"boom\"\n  })\n}\nf0(\"abc\")\n",
+			Exp:  []expFrame{{mainName, 8, 8, false}, {mainName, 4, 6, true}, {mainName, 5, 5, false}}},
+		{Fail: "hand:fails-during-import", Depth: 1, HasMod: true, ImportChain: true, Forms: []string{"import", "stmt", "x"},
+			Main: "x := 1\nf := func() {\n  y := 2\n  m := import(\"m\")\n  return m\n}\nf()\nreturn 1",
+			Mod:  "g := func() {\n  throw \"top\"\n}\ng()\nreturn 1",
+			Exp:  []expFrame{{mainName, 7, 7, false}, {mainName, 4, 4, false}, {modName, 4, 4, false}, {modName, 2, 2, false}}},
 	}
 }
 
@@ -688,7 +697,7 @@ func checkBroken(f failer, rec *ev.Rec, c replayCase, how string, fatal bool) {
 
 func TestCheck(t *testing.T) {
 	rec := ev.New("C16")
-	rec.Rule = "own line-by-line script generator: chain of DISTINCT functions f0..fN (depth 0..13), each in the main file or in source module m (module->main calls through a registry map, main->module via m.f), one statement per line, random non-failing filler (comments, blank/whitespace lines, multi-line raw strings and block comments, if/for blocks, caught errors), the call of the next function in one of 20 forms (+ CALL(f,a) Go callback with Invoker in a separate property), optionally wrapped in taken if/else/for/for-in/try-finally blocks; innermost statement fails in one of 16 ways; x optimizer on/off x encode/decode x k in {0,1,7,100} blank lines prepended to main. Expected trace = the lines recorded while building the text (multi-line call statements: line range). Also broken variants (one damaged place) whose compile error positions must lie inside the file. Non-trivial = depth >= 1 (broken variants: an error with a position); distinct by script text"
+	rec.Rule = "own line-by-line script generator: chain of DISTINCT functions f0..fN (depth 0..13), each in the main file or in source module m (module->main calls through a registry map, main->module via m.f; or the module body itself is part of the chain and fails while being imported, down to a failing first byte of the module file), one statement per line, random non-failing filler (comments, blank/whitespace lines, multi-line raw strings and block comments, if/for blocks, caught errors), the call of the next function in one of 20 forms (+ Go callbacks that invoke a script function through ugo.Invoker - an embedder function CALL(f,a) and stdlib strings.IndexFunc - in a separate property; + completed try/catch and try/finally statements among the filler in a third one), optionally wrapped in taken if/else/for/for-in/try-finally blocks; innermost statement fails in one of 16 ways; x optimizer on/off x encode/decode x k in {0,1,7,100} blank lines prepended to main. Expected trace = the lines recorded while building the text (multi-line call statements: line range). Also broken variants (one damaged place) whose compile error positions must lie inside the file. Non-trivial = depth >= 1 (broken variants: an error with a position); distinct by script text"
 	rec.Assumptions = []string{
 		"only line numbers and file names are compared with the expectation; columns/offsets only for consistency with the file text (1<=line<=lines, 1<=col<=len(line)+1, offset<size, line/col re-derived from offset)",
 		"functions are distinct and there is one statement per line (equal consecutive positions are de-duplicated by design; the saved position of a caller is that of the instruction after the call); for call statements spanning lines any line of the statement is accepted",
